@@ -1,5 +1,6 @@
 import Cardutil.Basic
 import Cardutil.Py.Int
+import Cardutil.Py.Hex
 /-
   Run-time library for the TRANSLATED source (`Gen/Src.lean`, written by harness/pytrans.py from
   /repo's Python on every run): the Python built-ins and operators the translator maps to, with
@@ -178,5 +179,48 @@ inductive Signal (α : Type)
 
 /-- `f'{i:0w}'` -/
 def fmtIntW (w : Nat) (i : Int) : Text := fmtInt w i
+
+/-! ### hexadecimal text and integers as bit patterns (definitions of Py/Hex.lean, on `Int`)
+
+`int(s, 16)` is rendered for text made of hex digits only — Python also accepts a sign, surrounding blanks,
+underscores and a `0x` prefix, which the callers translated here never pass (PINs, PANs and key components are
+outside the properties' domains when they are not digit / hex strings); `^` and the formatting functions are
+rendered for non-negative values, which is all `intHex` and `int.from_bytes` produce. -/
+
+/-- `int(s, 16)`: ValueError unless `s` is a non-empty string of hex digits -/
+def intHex (s : Text) : Outcome Int :=
+  match Pin.intHex s with
+  | .ok n => .ok (n : Int)
+  | .dataError => .dataError
+  | .escape k => .escape k
+  | .diverge => .diverge
+
+/-- `a ^ b` for non-negative ints -/
+def xor (a b : Int) : Int := ((a.toNat ^^^ b.toNat : Nat) : Int)
+
+/-- `format(v, 'x')` -/
+def fmtHex (v : Int) : Text := (Pin.hexMin v.toNat).map Pin.hexChar
+
+/-- `f'{v:0{w}x}'` -/
+def fmtHexW (w v : Int) : Text := (Pin.fmtHexW w.toNat v.toNat).map Pin.hexChar
+
+/-- `f'{s:{fill}<{w}}'` -/
+def ljust (w : Int) (fill : Nat) (s : Text) : Text := Pin.ljust w.toNat fill s
+
+/-- `int.from_bytes(b, byteorder='big')` -/
+def intFromBytes (b : Bytes) : Int := ((Digits.fromDigits 256 b : Nat) : Int)
+
+/-- `v.to_bytes(n, byteorder='big')`: OverflowError for a negative value or one that needs more than `n` bytes -/
+def toBytes (n : Nat) (v : Int) : Outcome Bytes :=
+  if 0 ≤ v ∧ v.toNat < 256 ^ n then .ok (Digits.toDigits 256 n v.toNat) else .escape .overflowError
+
+/-- `binascii.unhexlify(s)` -/
+def unhexlify (s : Text) : Outcome Bytes := Pin.unhexlify s
+
+/-- `c.isalpha()` for an ASCII character (the translated callers apply it to hex digits) -/
+def isAlphaAscii (c : Nat) : Bool := decide ((65 ≤ c ∧ c ≤ 90) ∨ (97 ≤ c ∧ c ≤ 122))
+
+/-- `''.join(list_of_str)` -/
+def joinStr (l : List Text) : Text := l.flatten
 
 end Cardutil.Py.Rt
